@@ -2133,7 +2133,7 @@ x86_mn_base = x86_mnemo_metaclass('x86_mn_base', (object,), {})
 class x86_mn(x86_mn_base):
     def __init__(self, attrib = {}):
         self.opmode = attrib.get('opmode', u32)
-        self.admode = attrib.get('opmode', u32)
+        self.admode = attrib.get('admode', self.opmode)
         self.mnemo_mode = self.opmode
         self.cmt = ""
 
